@@ -15,15 +15,42 @@ use std::sync::atomic::Ordering::SeqCst;
 type F1 = fn(u64) -> u64;
 type B1 = fn(u64) -> bool;
 
-pub struct Syms { pub addr: BTreeMap<String, u64>, pub order: Vec<String> }
+pub struct Syms { pub addr: BTreeMap<String, u64>, pub order: Vec<String>, pub arenas: Vec<(u64, u64)> }
 impl Syms {
     pub fn parse(decls: &str) -> Syms {
         let mut addr = BTreeMap::new(); let mut order = Vec::new();
+        let mut arenas: Vec<arena::Arena> = Vec::new();
         for d in decls.split(',').filter(|s| !s.is_empty() && *s != "-") {
+            // set-up directives (executed in order, before anything is observed):
+            //   A=<base>/<pages>  map an arena   F=<addr>/<marker>  place `mov eax, marker ; ret`   S  seal arenas r-x
+            //   W=<lo>/<hi>/<hole|0>  reserve [lo,hi) PROT_NONE except the page at hole
+            if let Some(v) = d.strip_prefix("A=") {
+                let (b, p) = v.split_once('/').unwrap();
+                match arena::Arena::at(u64::from_str_radix(b, 16).unwrap(), p.parse().unwrap()) {
+                    Some(a) => arenas.push(a),
+                    None => { util::emit(&format!("SETUP-FAILED arena {v}\n")); unsafe { libc::_exit(3) } }
+                }
+                continue;
+            }
+            if let Some(v) = d.strip_prefix("F=") {
+                let (a, m) = v.split_once('/').unwrap();
+                let a = u64::from_str_radix(a, 16).unwrap();
+                let ar = arenas.iter().find(|x| a >= x.base && a + 6 <= x.base + x.len as u64).expect("F= outside arenas");
+                ar.put_fn(a, u32::from_str_radix(m, 16).unwrap());
+                continue;
+            }
+            if d == "S" { for a in &arenas { a.seal(); } continue; }
+            if let Some(v) = d.strip_prefix("W=") {
+                let t: Vec<u64> = v.split('/').map(|x| u64::from_str_radix(x, 16).unwrap()).collect();
+                arena::reserve_window(t[0], t[1], if t[2] == 0 { None } else { Some(t[2]) });
+                continue;
+            }
             if let Some((n, a)) = d.split_once('@') { addr.insert(n.to_string(), u64::from_str_radix(a, 16).unwrap()); order.push(n.to_string()); }
             else { addr.insert(d.to_string(), targets::addr_of(d)); order.push(d.to_string()); }
         }
-        Syms { addr, order }
+        let ar = arenas.iter().map(|a| (a.base, a.base + a.len as u64)).collect();
+        std::mem::forget(arenas);
+        Syms { addr, order, arenas: ar }
     }
     pub fn is_bool(n: &str) -> bool { n.starts_with('b') }
     pub fn is_fake(n: &str) -> bool { n.starts_with("fk") || n.starts_with('z') }
@@ -141,6 +168,7 @@ fn do_op(inj: &mut InjectorPP, syms: &Syms, op: &str) -> String {
 
 fn live_jits(upto: usize) -> Vec<(u64, u64)> {
     let mut live: Vec<(u64, u64)> = Vec::new();
+    if interpose::overflowed() { return live; }
     for i in 0..upto {
         let e = interpose::get(i);
         match e.kind { b'M' if e.ret >= 0 => live.push((e.ret as u64, e.b)), b'U' => { if let Some(p) = live.iter().position(|x| x.0 == e.a) { live.remove(p); } } _ => {} }
@@ -174,7 +202,8 @@ pub fn run_history(line: &str, with_diff: bool) -> String {
     util::emit(&format!("{id} ADDR {}\n", syms.order.iter().map(|s| format!("{}={:x}", s, syms.addr[s])).collect::<Vec<_>>().join(",")));
     util::emit(&format!("{id} ORIG {}\n", syms.order.iter().map(|s| format!("{}={}", s, util::hex(&util::read16(syms.addr[s])))).collect::<Vec<_>>().join(",")));
     util::emit(&format!("{id} ORIGVALS {}\n", syms.order.iter().map(|s| format!("{}={}", s, syms.call(s, 7))).collect::<Vec<_>>().join(",")));
-    let rwx0 = util::rwx_anon();
+    let not_arena = |m: &(u64, u64)| !syms.arenas.iter().any(|a| m.0 < a.1 && a.0 < m.1);
+    let rwx0: Vec<(u64, u64)> = util::rwx_anon().into_iter().filter(|m| not_arena(m)).collect();
     let snap = util::ExecSnapshot::take();
     interpose::reset();
     let mut ev_from = 0usize;
@@ -199,7 +228,7 @@ pub fn run_history(line: &str, with_diff: bool) -> String {
         let res = format!("{res};panics={};lock={lock}", PANICS.swap(0, SeqCst));
         boundary(&mut out, id, &format!("L{li} EXIT"), &res, &mut ev_from, &syms, &snap, true);
     }
-    let rwx1 = util::rwx_anon();
+    let rwx1: Vec<(u64, u64)> = util::rwx_anon().into_iter().filter(|m| not_arena(m)).collect();
     util::emit(&format!("{id} END rwx_before={} rwx_after={} rwx_equal={} exec_bytes={} log_overflow={}\n", rwx0.len(), rwx1.len(), rwx0 == rwx1, snap.bytes(), interpose::overflowed()));
     out
 }
